@@ -33,6 +33,7 @@ func runC15(p *load.Program, r *core.Report) {
 	c15Result(p, r)
 	c15Flags(p, r)
 	c15Permissions(p, r)
+	c15CookieOverride(p, r)
 	c15Env(p, r)
 }
 
@@ -466,6 +467,104 @@ func c15CookieFlow(p *load.Program, r *core.Report) {
 }
 
 // c15Result: H3
+// c15CookieOverride: H2b — the node cookie is only a fallback. Wherever a function overwrites the
+// Cookie field of a value that already got an endpoint-specific cookie in the same function (the
+// acceptor's, the route's), the overwrite is on the edge on which that field was found empty.
+func c15CookieOverride(p *load.Program, r *core.Report) {
+	rule := "C15.H2b node-cookie-is-a-fallback"
+	r.Floor(rule, 3)
+	seq := map[string]int{}
+	for _, f := range funcsOfPkgs(p, "node") {
+		type st struct {
+			in   *ssa.Store
+			base ssa.Value
+			node bool // value is the node's own cookie
+		}
+		var stores []st
+		eachInstr(f, func(in ssa.Instruction) {
+			s2, ok := in.(*ssa.Store)
+			if !ok {
+				return
+			}
+			fa, ok := s2.Addr.(*ssa.FieldAddr)
+			if !ok {
+				return
+			}
+			if _, fl := fieldOwner(fa); fl != "Cookie" && fl != "cookie" {
+				return
+			}
+			isNode := false
+			if b, path, okp := fieldPath(s2.Val); okp && len(path) > 0 && path[len(path)-1] == "cookie" {
+				if namedOf(deref(b.Type())) == "node.network" {
+					isNode = true
+				}
+			}
+			stores = append(stores, st{s2, canonCell(fa.X), isNode})
+		})
+		for _, s1 := range stores {
+			if !s1.node {
+				continue
+			}
+			// is there another store to the same field of the same value that is not the node cookie?
+			specific := false
+			for _, s2 := range stores {
+				if s2.in != s1.in && s2.base == s1.base && !s2.node {
+					specific = true
+				}
+			}
+			if !specific {
+				continue
+			}
+			fn := fname(f)
+			seq[fn]++
+			key := fmt.Sprintf("C15.H2b|%s|fallback#%d", fn, seq[fn])
+			inst := "the node cookie replaces an endpoint's own cookie only when that cookie is empty"
+			guarded := false
+			eachInstr(f, func(in ssa.Instruction) {
+				b, ok := in.(*ssa.BinOp)
+				if !ok || (b.Op != token.EQL && b.Op != token.NEQ) {
+					return
+				}
+				c, okc := b.Y.(*ssa.Const)
+				if !okc || c.Value == nil || c.Value.Kind() != constant.String || constant.StringVal(c.Value) != "" {
+					return
+				}
+				ld, okl := b.X.(*ssa.UnOp)
+				if !okl || ld.Op != token.MUL {
+					return
+				}
+				fa, okf := ld.X.(*ssa.FieldAddr)
+				if !okf || canonCell(fa.X) != s1.base {
+					return
+				}
+				if _, fl := fieldOwner(fa); fl != "Cookie" && fl != "cookie" {
+					return
+				}
+				t, fls, _ := boolEdges(b)
+				empty := t
+				if b.Op == token.NEQ {
+					empty = fls
+				}
+				if len(empty) > 0 && edgesDominate(empty, s1.in) {
+					guarded = true
+				}
+			})
+			if guarded {
+				r.OK(rule, key, fn, p.Pos(s1.in.Pos()), inst, "store dominated by the Cookie == \"\" edge")
+			} else {
+				r.Bad(rule, key, fn, p.Pos(s1.in.Pos()), inst, "the endpoint's own cookie is overwritten unconditionally: an acceptor (or route) configured with its own cookie authenticates with the node cookie instead")
+			}
+		}
+	}
+}
+
+func deref(t types.Type) types.Type {
+	if pt, ok := t.(*types.Pointer); ok {
+		return pt.Elem()
+	}
+	return t
+}
+
 func c15Result(p *load.Program, r *core.Report) {
 	rule := "C15.H3 result-agreement"
 	r.Floor(rule, 3)
